@@ -674,7 +674,11 @@ class World:
             dev = op['dev']
             frame = self.rfc_frame(op)
             handle = self.handle('br', dev)
-            cid = self.dyn_cid(op.get('chan', 'rfraw'), dev)
+            if op.get('chan') == 'last':
+                chans = self.devs[dev].l2cap_channel_manager.channels.get(handle, {})
+                cid = max(chans) if chans else 0x0BAD
+            else:
+                cid = self.dyn_cid(op.get('chan', 'rfraw'), dev)
             self.devs[dev].host.on_packet(self.acl(handle, 2, 0, self.l2cap_frame(cid, frame)))
         elif kind == 'at':                     # AT bytes in a well-formed RFCOMM UIH frame
             from bumble import rfcomm
@@ -1088,7 +1092,13 @@ class Gen:
         return rng.bytes(n)
 
     def payload_for(self, chan_key, family):
-        """-> (bytes, source tag). family: att|smp|sig|sdp|rfcomm|avdtp|avctp|other"""
+        """-> (bytes, source tag). family: att|smp|sig|sdp|rfcomm|avdtp|avctp|coc|ertm|avrcp|other"""
+        b, tag = self._payload_for(chan_key, family)
+        if family == 'rfcomm':
+            b = self.defuse_rfcomm(b)
+        return b, tag
+
+    def _payload_for(self, chan_key, family):
         rng = self.rng
         seeds = self.seeds['chan'].get(chan_key, [])
         if not seeds and family == 'smp':
@@ -1218,6 +1228,18 @@ class Gen:
                 out = self.defuse_signalling(out)
             return out, 'class-' + k
         return b, 'class-valid'
+
+    def defuse_rfcomm(self, raw):
+        """A Parameter Negotiation command naming the live DLCI is a protocol-valid request to
+        (re)open that DLC - bumble replaces the connected DLC by a new one - i.e. a peer
+        resetting its own data link, not hostile input: re-aim it at another DLCI.  (The FCS
+        of a UIH frame covers address and control only.)"""
+        if len(raw) >= 6 and (raw[0] >> 2) == 0 and (raw[1] & 0xEF) == 0xEF and (raw[3] & 0xFC) == 0x80 \
+                and (raw[5] & 0x3F) == self.dlci:
+            raw = bytearray(raw)
+            raw[5] = 60
+            return bytes(raw)
+        return raw
 
     def safe_rfcomm(self, raw):
         """False for frames that (with a good FCS) are protocol-valid open/close requests."""
@@ -2365,6 +2387,20 @@ def stateful_cases(rng, quick=True):
     add('rfcomm-data-before-sabm', 'rfcomm-session',
         [{'k': 'rfc', 'dev': 1, 'f': 'pn', 'mfs': 0, 'credits': 7}, {'k': 'rfc', 'dev': 1, 'f': 'uih', 'd': 'echo', 'data': '6162'},
          {'k': 'rfc', 'dev': 1, 'f': 'sabm', 'd': 'echo'}, {'k': 'rfc', 'dev': 1, 'f': 'uih', 'd': 'echo', 'data': '6162'}], ['conn', 'at', 'echo.br'])
+
+    # RFCOMM over an L2CAP channel whose MTU the peer configured to 0..6: the DLC's frame size is
+    # min(N1, L2CAP MTU - 5), i.e. negative, zero or one, with a perfectly valid N1
+    for l2mtu in (0, 4, 5, 6, 30):
+        ops = [{'k': 'l2cap', 'conn': 'br', 'dev': 1, 'cid': 1, 'data': _sig(0x02, 0x35, le16(3) + '7200')},
+               {'k': 'l2cap', 'conn': 'br', 'dev': 1, 'cid': 1, 'data': _sig(0x04, 0x36, '{CID}0000' + '0102' + le16(l2mtu))},
+               {'k': 'l2cap', 'conn': 'br', 'dev': 1, 'cid': 1, 'data': _sig(0x05, 0x01, '{CID}00000000')},
+               {'k': 'l2cap', 'conn': 'br', 'dev': 1, 'cid': 1, 'data': _sig(0x05, 0x02, '{CID}00000000')},
+               {'k': 'rfc', 'dev': 1, 'chan': 'last', 'f': 'sabm', 'd': 'mux'},
+               {'k': 'rfc', 'dev': 1, 'chan': 'last', 'f': 'pn', 'mfs': 100, 'credits': 7},
+               {'k': 'rfc', 'dev': 1, 'chan': 'last', 'f': 'sabm', 'd': 'echo'},
+               {'k': 'rfc', 'dev': 1, 'chan': 'last', 'f': 'uih', 'd': 'echo', 'data': b'hello world'.hex(), 'credits': None},
+               {'k': 'rfc', 'dev': 1, 'chan': 'last', 'f': 'uih', 'd': 'echo', 'data': b'x'.hex(), 'credits': 200}]
+        add(f'rfcomm-over-l2cap-mtu{l2mtu}', 'rfcomm-session', ops, ['conn', 'at', 'echo.br'])
 
     # ---- L2CAP LE credit-based: hostile mtu / mps / credits, then data both ways, then credits
     vals = [0, 1, 22, 23, 65535]
